@@ -755,3 +755,130 @@ twin('C09', 'scan-guard-ifelse', FSPY, 'read_index',
                 seek(pos)
                 file.truncate()
             break''')
+
+# ---------------------------------------------------------------- C08
+breaker('C08', 'copyone-flag-not-cleared', 'C08.R1', PACKPY,
+        'FileStoragePacker.copyOne',
+        '''        self._commit_lock.release()
+        self.locked = False''', '''        self._commit_lock.release()''')
+breaker('C08', 'copyone-flag-set-late', 'C08.R1', PACKPY,
+        'FileStoragePacker.copyOne',
+        '''        self.index.update(self.tindex)
+        self.tindex.clear()
+        self._commit_lock.acquire()
+        self.locked = True
+        return ipos''', '''        self._commit_lock.acquire()
+        self.index.update(self.tindex)
+        self.tindex.clear()
+        self.locked = True
+        return ipos''')
+breaker('C08', 'packer-cleanup-before-release', 'C08.R1', PACKPY,
+        'FileStoragePacker.pack',
+        '''            try:
+                close_files_remove()
+            finally:
+                # the cleanup can fail, too (e.g. flushing on a full disk)
+                if self.locked:
+                    self._commit_lock.release()
+            raise  # don't succeed silently''',
+        '''            close_files_remove()
+            if self.locked:
+                self._commit_lock.release()
+            raise  # don't succeed silently''')
+breaker('C08', 'packer-no-release-on-error', 'C08.R1', PACKPY,
+        'FileStoragePacker.pack',
+        '''        except:  # noqa: E722 do not use bare 'except'
+            if self.locked:
+                self._commit_lock.release()
+            raise''', '''        except:  # noqa: E722 do not use bare 'except'
+            raise''')
+breaker('C08', 'packer-releases-before-return', 'C08.R1', PACKPY,
+        'FileStoragePacker.pack',
+        '''            if self.blob_removed is not None:
+                self.blob_removed.close()
+
+            return pos''', '''            if self.blob_removed is not None:
+                self.blob_removed.close()
+            self._commit_lock.release()
+            self.locked = False
+
+            return pos''')
+breaker('C08', 'swap-after-commit-lock-release', 'C08.R2', FSPY,
+        'FileStorage.pack',
+        '''            have_commit_lock = True
+            opos, index = pack_result
+            with self._files.write_lock():''',
+        '''            have_commit_lock = False
+            self._commit_lock.release()
+            opos, index = pack_result
+            with self._files.write_lock():''')
+breaker('C08', 'swap-without-storage-lock', 'C08.R2', FSPY, 'FileStorage.pack',
+        '''            with self._files.write_lock():
+                with self._lock:
+                    self._files.empty()''', '''            with self._files.write_lock():
+                if True:
+                    self._files.empty()''')
+breaker('C08', 'pack-double-release', 'C08.R2', FSPY, 'FileStorage.pack',
+        '''                self._commit_lock.release()
+                have_commit_lock = False
+                self._remove_blob_files''', '''                self._commit_lock.release()
+                self._remove_blob_files''')
+breaker('C08', 'pack-flag-not-reset', 'C08.R3', FSPY, 'FileStorage.pack',
+        '''            with self._lock:
+                self._pack_is_in_progress = False
+
+        if not self.pack_keep_old:''', '''            pass
+
+        if not self.pack_keep_old:''')
+breaker('C08', 'pack-flag-set-outside-lock', 'C08.R3', FSPY, 'FileStorage.pack',
+        '''        with self._lock:
+            if self._pack_is_in_progress:
+                raise FileStorageError('Already packing')
+            self._pack_is_in_progress = True''',
+        '''        with self._lock:
+            if self._pack_is_in_progress:
+                raise FileStorageError('Already packing')
+        self._pack_is_in_progress = True''')
+breaker('C08', 'pack-removals-before-try', 'C08.R3', FSPY, 'FileStorage.pack',
+        '''        have_commit_lock = False
+        try:
+            if os.path.exists(oldpath):
+                os.remove(oldpath)''', '''        have_commit_lock = False
+        if os.path.exists(oldpath + '.bak'):
+            os.remove(oldpath + '.bak')
+        try:
+            if os.path.exists(oldpath):
+                os.remove(oldpath)''')
+breaker('C08', 'packer-ioerror-keeps-pack-file', 'C08.R4', PACKPY,
+        'FileStoragePacker.pack',
+        '''        except OSError:
+            # most probably ran out of disk space or some other IO error
+            close_files_remove()
+            raise  # don't succeed silently
+
+        assert ipos''', '''        except OSError:
+            # most probably ran out of disk space or some other IO error
+            raise  # don't succeed silently
+
+        assert ipos''')
+breaker('C08', 'failed-rename-not-reopened', 'C08.R4', FSPY, 'FileStorage.pack',
+        '''                    except Exception:
+                        self._file = open(self._file_name, 'r+b')
+                        raise''', '''                    except Exception:
+                        raise''')
+twin('C08', 'pack-try-else-structure', FSPY, 'FileStorage.pack',
+     '''            if self.blob_dir:
+                self._commit_lock.release()
+                have_commit_lock = False
+                self._remove_blob_files_tagged_for_removal_during_pack()''',
+     '''            self._commit_lock.release()
+            have_commit_lock = False
+            if self.blob_dir:
+                self._remove_blob_files_tagged_for_removal_during_pack()''')
+twin('C08', 'pack-rename-oldpath', FSPY, 'FileStorage.pack',
+     '''                    try:
+                        os.rename(self._file_name, oldpath)
+                    except Exception:''', '''                    previous = oldpath
+                    try:
+                        os.rename(self._file_name, previous)
+                    except Exception:''')
